@@ -44,6 +44,27 @@ func (s *ByteStore) Set(_ context.Context, id string, b []byte) error {
 	return nil
 }
 
+// Snapshot returns a copy of everything stored; Restore puts such a copy back (a store that still holds
+// the bytes of an earlier checkpoint: retry after a failed resume, replay, a second consumer).
+func (s *ByteStore) Snapshot() map[string][]byte {
+	s.mu.Lock()
+	defer s.mu.Unlock()
+	out := map[string][]byte{}
+	for k, v := range s.m {
+		out[k] = append([]byte(nil), v...)
+	}
+	return out
+}
+
+func (s *ByteStore) Restore(snap map[string][]byte) {
+	s.mu.Lock()
+	defer s.mu.Unlock()
+	s.m = map[string][]byte{}
+	for k, v := range snap {
+		s.m[k] = append([]byte(nil), v...)
+	}
+}
+
 func (s *ByteStore) Counts() (sets, gets int) {
 	s.mu.Lock()
 	defer s.mu.Unlock()
